@@ -1,7 +1,7 @@
 """GameSpy 1 family (`gs1 <port> <retries> <script>` = one::query, `gs1vars …` = one::query_vars)."""
 
 FAMILY = dict(
-    name="gs1", nargs=2, gen="gs1", retries=1, port=0, decode_property="C04", entry="gs1",
+    send_units=1, name="gs1", nargs=2, gen="gs1", retries=1, port=0, decode_property="C04", entry="gs1",
     describe=("0-64 players with every subset of the optional per-player fields, player/playername, AdminName/admin, "
               "password as 0/1 / true/false / True/False, tournament present or not, padded numbers, extra variables incl. "
               "look-alikes of player fields, 1-65 parts cut at pair boundaries, final before/after queryid; every fourth "
